@@ -12,7 +12,7 @@ LEVEL = "fault_enumeration"
 MANIFEST = dict(
     engine="E3-netsim", engine_path="vlib/netsim.py",
     kind="real Bridge (through its real registration handshake) and real Executor.recv_loop over an in-memory zmq shim with a virtual clock; per-frame drop / duplicate / hold plans on data frames and acknowledgements; offline exactly-once checker over the recorded send/deliver history",
-    technique="offline history checker at the boundary of the acknowledged layer: call events = ReliableSender.send on both endpoints, delivery events = messages returned by the peer's Listener.recv_messages; every message carries a unique dataset id; under seeded per-frame fault plans (finite loss, duplication, delay, partition, and a busy-link class in which both inbound links receive fresh traffic for longer than the whole retry budget so that no blocking poll ever times out) each history is driven to quiescence through the real loops and checked: delivered exactly once, or at most once and the sender raised within the retry budget; malformed frame lists fed to Listener._recv_one must raise",
+    technique="offline history checker at the boundary of the acknowledged layer: call events = ReliableSender.send on both endpoints, delivery events = messages returned by the peer's Listener.recv_messages; every message carries a unique dataset id; under seeded per-frame fault plans (finite loss, duplication, delay, partition, and a busy-link class in which both inbound links receive fresh traffic for longer than the whole retry budget so that no blocking poll ever times out) each history is driven to quiescence through the real loops and checked: delivered exactly once, or at most once and the sender raised within the retry budget; the real Listener is also fed streams of both acknowledged frame shapes ([Syn, message] and the [Syn, header, value] dataset payloads of send_data) from several senders with every transmission repeated 1-3 times and interleaved: each distinct (sender, idx) must be handed over exactly once and every copy acknowledged; malformed frame lists fed to Listener._recv_one must raise",
     text="Held = in every history explored every message was delivered exactly once (finite-loss plans, no sender gave up) or at most once with a bounded raise (partition plans); no duplicate delivery, no silent loss, no foreign delivery; every malformed frame list was rejected.",
     note="NetSim replaces zmq and time inside cascade.executor.comms (and time in bridge); loops run one iteration at a time, single-threaded; faults apply only to frames of the acknowledged layer and to Acks; a second tier (vlib/lossyzmq.py) runs the same endpoints over real zmq TCP sockets behind a dropping / duplicating / delaying proxy, one history per process, in both tiers; a give-up in real time is inconclusive for that history.",
 )
@@ -24,7 +24,7 @@ RULE = (
 )
 ASSUMPTIONS = ["fair stepping: both loops keep iterating until quiescence", "finite-loss plans never fail more than 12 consecutive transmissions of one message"]
 REQUIRED_COUNTERS = ["lossyzmq_histories_checked", "histories", "messages_sent_c2e", "messages_sent_e2c", "messages_sent_c2d", "frames_dropped", "frames_duplicated", "frames_held", "retries_observed",
-                     "histories_partition", "histories_busy", "sender_raises_observed", "malformed_probes"]
+                     "histories_partition", "histories_busy", "sender_raises_observed", "malformed_probes", "receiver_streams", "receiver_duplicate_frames", "receiver_payload_messages"]
 
 CMD_TYPES = ("TaskSequence", "DatasetPurge", "DatasetTransmitCommand")
 EVT_TYPES = ("DatasetPublished", "ExecutorRegistration", "ExecutorFailure", "TaskFailure", "ExecutorExit")
@@ -265,6 +265,89 @@ def one_history(col: Collector, rng, index: int):
         w.close()
 
 
+# ---- receiver-side exactly-once for every acknowledged frame shape -------------------------------------------
+
+def one_receiver_stream(col: Collector, rng, index: int):
+    """A stream of acknowledged frame lists -- [Syn, message] as the ReliableSender writes them and [Syn, header, value] as
+    send_data writes dataset payloads (data server -> data server, data server -> controller for a fetch) -- from 1-3 senders,
+    each transmission repeated 1-3 times (network duplicates, retries after a lost or late ack) and the copies interleaved
+    with other traffic: the real Listener must hand every distinct (sender, idx) to the application exactly once, with the
+    payload it was sent with, and acknowledge every copy."""
+    import cascade.executor.comms as comms
+    import cascade.executor.msg as msg
+    from cascade.executor.serde import ser_message
+    from cascade.low.core import DatasetId
+    from vlib.checks.c17 import FakePoller, FakeSock
+    acks = []
+    real_cb = comms.callback
+    comms.callback = lambda a, m: acks.append((a, m))
+    try:
+        lst = object.__new__(comms.Listener)
+        sock = FakeSock()
+        lst.address, lst.socket, lst.poller, lst.acked = "fake", sock, FakePoller(sock), set()
+        senders = [f"ack://s{j}" for j in range(rng.randint(1, 3))]
+        originals = []
+        for j, snd in enumerate(senders):
+            for idx in range(rng.randint(1, 6)):
+                ds = DatasetId(f"r{j}x{idx}", "0")
+                syn = ser_message(msg.Syn(idx, snd))
+                if rng.random() < 0.5:
+                    hdr_obj = msg.DatasetTransmitPayloadHeader(snd, idx, ds, "cloudpickle.loads")
+                    val = rng.randbytes(rng.choice([0, 1, 40]))
+                    originals.append(("payload", snd, idx, [syn, pickle.dumps(hdr_obj), val], msg.DatasetTransmitPayload(hdr_obj, val)))
+                else:
+                    m = msg.DatasetPurge(ds)
+                    originals.append(("plain", snd, idx, [syn, ser_message(m)], m))
+        stream = []
+        for o in originals:
+            stream.extend([o] * rng.choice([1, 1, 2, 3]))
+        # per-sender order of FIRST copies is kept (zmq is FIFO per connection); later copies land anywhere after their first
+        firsts, copies = [], []
+        seen = set()
+        for o in stream:
+            k = (o[1], o[2])
+            (copies if k in seen else firsts).append(o)
+            seen.add(k)
+        order = list(firsts)
+        for o in copies:
+            pos = next(i for i, x in enumerate(order) if x is o)
+            order.insert(rng.randint(pos + 1, len(order)), o)
+        delivered = []
+        for o in order:
+            sock.frames = list(o[3])
+            try:
+                got = lst.recv_messages(0)
+            except Exception as e:  # noqa: BLE001
+                col.violation(f"receiver:well-formed-{o[0]}-frames-rejected", f"{e!r:.200}", {"kind": o[0]}, index)
+                return
+            delivered.extend(got)
+        col.count("receiver_streams")
+        col.count("receiver_frames", len(order))
+        col.count("receiver_duplicate_frames", len(order) - len(originals))
+        col.count("receiver_payload_messages", sum(1 for o in originals if o[0] == "payload"))
+        col.case(shape=digest("receiver", [(o[0], o[1], o[2]) for o in order]), nontrivial=len(order) > len(originals),
+                 sample={"senders": len(senders), "messages": len(originals), "frames": len(order), "kinds": [o[0] for o in originals][:20]})
+        if len(acks) != len(order):
+            col.violation("receiver:copy-not-acknowledged", f"{len(order)} acknowledged frame lists arrived, {len(acks)} acks were sent", {"frames": [(o[0], o[1], o[2]) for o in order]}, index)
+            return
+        want = Counter(repr(o[4]) for o in originals)
+        got = Counter(repr(m) for m in delivered)
+        for o in originals:
+            k = repr(o[4])
+            if got.get(k, 0) > want[k]:
+                col.violation(f"receiver:duplicate-delivery:{o[0]}", f"{k[:120]} from {o[1]} #{o[2]} arrived {sum(1 for x in order if x is o)}x and was handed to the application {got[k]}x",
+                              {"frames": [(x[0], x[1], x[2]) for x in order]}, index)
+                return
+            if got.get(k, 0) < want[k]:
+                col.violation(f"receiver:message-not-delivered:{o[0]}", f"{k[:120]} from {o[1]} #{o[2]} was never handed to the application", {"frames": [(x[0], x[1], x[2]) for x in order]}, index)
+                return
+        extra = set(got) - set(want)
+        if extra:
+            col.violation("receiver:delivered-but-never-sent", f"{sorted(extra)[0][:160]}", None, index)
+    finally:
+        comms.callback = real_cb
+
+
 # ---- malformed frame sequences -----------------------------------------------------------------------------
 
 def one_malformed(col: Collector, rng, index: int):
@@ -426,7 +509,8 @@ def run_shard(spec, col: Collector):
             break
         if col.want(i):
             rng = case_rng(seed, shard, i)
-            guarded(col, i, one_malformed if rng.random() < 0.15 else one_history, col, rng, i)
+            r_ = rng.random()
+            guarded(col, i, one_malformed if r_ < 0.15 else (one_receiver_stream if r_ < 0.3 else one_history), col, rng, i)
 
 
 def plan(tier, seed, scale=1.0):
